@@ -4,7 +4,7 @@ import math
 import numpy as np
 from hypothesis import strategies as st
 
-from harness import build, gen
+from harness import reps, build, gen
 from harness import refmodel as rm
 from harness.checks import c14_model as M
 
@@ -806,6 +806,24 @@ def _dataset_seeds(seed, k):
     return out
 
 
+def _caller_array(setup, p):
+    """the probability vector as the caller holds it: a fresh copy per call, or (every other program) ONE preallocated
+    buffer per length that the caller overwrites before each call, as in a parameter sweep."""
+    if setup is None or not getattr(setup, "_reuse_buffers", False):
+        return p.copy()
+    bufs = setup.__dict__.setdefault("_bufs", {})
+    buf = bufs.setdefault(len(p), np.empty(len(p), dtype=np.float64))
+    if len(p) > 1:
+        # the previous point of the sweep: the buffer held another distribution (p with its entries rotated) and one
+        # datum was drawn from it with a generator of its own; then the caller overwrites the buffer
+        from quara.qcircuit import data_generator as dg
+
+        buf[:] = np.roll(p, 1)
+        dg.generate_data_from_prob_dist(buf, 1, np.random.Generator(np.random.PCG64(1)))
+    buf[:] = p
+    return buf
+
+
 def _run_entry(e, c, setup, stream_arg, dataset_streams=None):
     """call quara."""
     from quara.objects.multinomial_distribution import MultinomialDistribution
@@ -813,7 +831,7 @@ def _run_entry(e, c, setup, stream_arg, dataset_streams=None):
 
     ex, tomo, true = setup.experiment, setup.tomo, setup.true
     if e == "data":
-        return dg.generate_data_from_prob_dist(c["p"].copy(), c["n"], stream_arg)
+        return dg.generate_data_from_prob_dist(_caller_array(setup, c["p"]), c["n"], stream_arg)
     if e == "dataset":
         return dg.generate_dataset_from_prob_dists([p.copy() for p in c["ps"]], list(c["ns"]), dataset_streams)
     if e == "empi_seq":
@@ -950,6 +968,9 @@ def has_tomo_reset_seed_zero(case):
 
 def check_reproducibility(case, ctx):
     setup = Setup(case["setup"])
+    setup._reuse_buffers = reps.pick(repr(case["ps"]), 2) == 0
+    if setup._reuse_buffers:
+        ctx.label("caller-buffers:reused")
     ctx.label("tomo:" + case["setup"]["type"], f"schedules:{setup.n_sched}")
     if any(np.any(p == 0) for p in setup.ps):
         ctx.label("tomo_p:has_zero")
